@@ -122,6 +122,114 @@ def judge(h, real):
     return None
 
 
+def can_val(name):
+    return None if name == "None" else int(name[1:])
+
+
+def can_unval(v):
+    return "None" if v is None else "v%d" % v
+
+
+def can_execute(h, rig, prefix):
+    """Can.tla history on real Can objects held by a real Hold over a real Subery; observations per op"""
+    from hio.base.hier import Can
+    keys = sorted(h[0]["mem"])
+    objs = {k: Can() for k in keys}
+    inhold = set()
+    out = []
+    for e in h:
+        op, k, a = e["op"], e["k"], e["a"]
+        try:
+            with core.watchdog():
+                r = "-"
+                if op == "set":
+                    objs[k].value = can_val(a)
+                elif op == "update":
+                    objs[k]._update(value=can_val(a))
+                elif op == "sync":
+                    r = "T" if objs[k]._sync(force=(a == "force")) else "F"
+                elif op == "pin":
+                    r = "T" if objs[k]._pin() else "F"
+                elif op == "inject":
+                    rig.hold[prefix + k] = objs[k]
+                    inhold.add(k)
+                elif op == "close":
+                    rig.s.close()
+                elif op == "open":
+                    rig.s.reopen()
+                    rig.newhold()
+                    for kk in sorted(inhold):
+                        if kk in a:
+                            objs[kk] = Can()
+                        rig.hold[prefix + kk] = objs[kk]
+            res = r
+        except core.Hang:
+            res = "X:Hang"
+        except Exception as ex:
+            res = "X:%s: %s" % (type(ex).__name__, str(ex)[:80])
+        obs = {"res": res, "mem": {kk: can_unval(objs[kk].value) for kk in keys},
+               "stale": {kk: bool(objs[kk]._stale) for kk in keys}}
+        if rig.s.opened:    # the durable copy can only be read while the environment is open
+            try:
+                obs["dur"] = {}
+                for kk in keys:
+                    c = rig.s.cans.get(prefix + kk)
+                    obs["dur"][kk] = "absent" if c is None else can_unval(c.value)
+            except Exception as ex:
+                obs["dur"] = "X:%s" % type(ex).__name__
+        out.append(obs)
+    if not rig.s.opened:
+        rig.s.reopen()
+        rig.newhold()
+    return out
+
+
+def can_judge(h, real):
+    for n, (e, r) in enumerate(zip(h, real)):
+        for f, name in (("res", "result"), ("mem", "object values"), ("stale", "_stale flags"), ("dur", "durable copies")):
+            if f in r and r[f] != e[f]:
+                return "op %d %s(%s, %s): %s are %r, the model says %r (history %s)" % (
+                    n + 1, e["op"], e["k"], e["a"], name, r[f], e[f], [(x["op"], x["k"], x["a"]) for x in h[:n + 1]])
+    return None
+
+
+def run_can(ctx, root):
+    """beyond the listed property: the third durable kind (Can) - same discipline, own spec (specs/store/Can.tla).
+    A difference between the real Can and the model is reported as a divergence, never as a C23 violation."""
+    keys = {"k1", "k2"}
+    r = ctx.tlc("store", "Can", core.cfg_text(
+        constants={"Keys": keys, "Vals": {"v1", "v2"}, "MaxOps": 6 if ctx.quick else 8},
+        invariants=["TypeOK", "Mirror", "DurableSynced", "NoPhantom"],
+        properties=["Isolated", "CopyFromObject", "Survive"], view="MCView"))
+    for v in r.violated:
+        ctx.divergence("the Can model violates %s" % v)
+    g = ctx.tlc("store", "CanGen", core.cfg_text(constants={"Keys": keys, "Vals": {"v1"}, "MaxOps": 3},
+                                                 constraints=["Dump"]), workers=1)
+    hs = g.tagged_json("BH")
+    nex = len(hs)
+    nsim, dep = (120, 9) if ctx.quick else (3000, 14)
+    g = ctx.tlc("store", "CanGen", core.cfg_text(constants={"Keys": keys, "Vals": {"v1", "v2"}, "MaxOps": dep},
+                                                 constraints=["Dump"]), workers=1, simulate="num=%d" % nsim, depth=dep + 2)
+    hs += g.tagged_json("BH")
+    if nex < 500 or len(hs) - nex < nsim:
+        raise core.MachineryError("Can history dump too small: %d exhaustive, %d simulated" % (nex, len(hs) - nex))
+    rig, nbad = None, 0
+    for i, h in enumerate(hs):
+        if i % 400 == 0:
+            if rig:
+                rig.close()
+            rig = Rig(root, 1000 + i // 400)
+        real = can_execute(h, rig, "c%d." % i)
+        bad = can_judge(h, real)
+        if bad:
+            nbad += 1
+            ctx.divergence("Can (beyond C23): " + bad)
+    if rig:
+        rig.close()
+    ctx.note("Can.tla (beyond the property): %d histories (%d exhaustive of length 3, rest simulated of length %d) replayed on "
+             "real Can objects in a real Hold/Subery: %d differ" % (len(hs), nex, dep, nbad))
+
+
 def run(ctx):
     root = core.scratch_dir("hioverif_c23_")
     inv = ["Mirror", "IsModel", "NoMismatch", "SetUnique"]
@@ -163,6 +271,7 @@ def run(ctx):
                     ctx.violation("%s: %s" % (kind, bad), {"kind": kind, "history": h, "real": real})
             if rig:
                 rig.close()
+        run_can(ctx, root)
         ctx.exhaustive = True
     finally:
         shutil.rmtree(root, True)
